@@ -7,7 +7,8 @@ THEOREMS = ["C03_reachable_wf", "C03_decision_is_reported_list", "C03_add_presen
             "C03_total_counts_reported", "C03_lists_independent", "C03_delivery_uses_read_acl"]
 
 
-acl_histories = sl.acl_histories
+def acl_histories(r, thorough):
+    return sl.acl_histories(r, thorough) + sl.two_list_histories(r, thorough)
 
 
 def run(tier, replay=None):
